@@ -191,23 +191,12 @@ UNITS['U20k'] = dict(
     assumptions=[], not_covered=['narrowing casts (`as u8` ...) and Val -> integer casts (panic arms)', 'i64 -> f64 rounding for |v| > 2^53 is inherent to the documented degrade'])
 
 UNITS['U02b'] = dict(
-    kind='kani', crate='kani/U02b', needs_lock=True, timeout_s=1200, mem_gb=12, jobs=4,
-    title='BOUNDED fallback for U02: real ColumnBuffer::{null,push_ints,push_nulls,push_present,init_present}: first operation of 3 / 8 / 9 rows, second operation of <= 2 rows, against a row model',
-    harnesses=[dict(name='proofs::first_op_%d_rows' % n, bounded='first op exactly %d rows (values and null map symbolic), second op <= 2 rows, unwind 12' % n, unwind=12, clause='row count, NULL exactly where missing, integer values kept, no stray bits', fn='ColumnBuffer ops') for n in (3, 8, 9)]
-    + [dict(name='proofs::null_prefix_then_op', bounded='3 or 8 NULL rows, then 1 op of <= 2 rows, unwind 12', unwind=12, clause='row count, NULL exactly where missing, integer values kept, no stray bits', fn='ColumnBuffer ops'),
-       dict(name='proofs::vx_canary', expect_fail=True)],
+    kind='kani', crate='kani/U02b', needs_lock=True, timeout_s=900, mem_gb=10, jobs=7,
+    title='BOUNDED fallback for U02: real ColumnBuffer::{null,push_ints,push_nulls,push_present,init_present} on fixed-shape scenarios around the bitmap byte boundary (all values and null maps symbolic) against a row model',
+    harnesses=[dict(name='proofs::%s' % n, bounded='fixed shape %s, unwind 11' % n, unwind=11, clause='row count, NULL exactly where missing, integer values kept, no stray bits', fn='ColumnBuffer ops') for n in ['dense3_then_mapped', 'dense8_then_mapped', 'dense7_then_null', 'dense8_then_null', 'dense9_then_null', 'late_column_after_3', 'late_column_after_8']]
+    + [dict(name='proofs::vx_canary', expect_fail=True)],
     assumptions=['shims: StringColBuffer and RawVal reduced to stand-ins (only stored, never inspected by the null-map code)'],
-    not_covered=['push_floats / push_strings / finalize'])
-
-UNITS['U06k'] = dict(
-    kind='kani', crate='kani/U06', needs_lock=True, timeout_s=900,
-    title='BOUNDED: InverseDictLookup::execute (R6) + real comparison kernels on dictionary indices: string comparisons against constants present in / absent from a sorted dictionary (3 entries <= 1 byte)',
-    path_includes=['src/engine/operators/comparison_operators.rs'],
-    harnesses=[dict(name='proofs::str_%s' % r, bounded='3 dictionary entries and constant of <= 1 ASCII byte, unwind 5', unwind=5, clause='d[i] %s c == perform(i, inverse_dict_lookup(d, c))' % sym, fn='InverseDictLookup::execute + comparison kernel') for r, sym in (('eq', '='), ('ne', '<>'), ('lt', '<'), ('le', '<='), ('gt', '>'), ('ge', '>='))] + [
-               dict(name='proofs::vx_canary', expect_fail=True)],
-    assumptions=['registry scan (syntactic, //@scan): an operator is obliged to commute with the constant translation only if FUNCTION2_REGISTRY routes its (String, String) signature through Function2::comparison_op (encoding_invariance = true)',
-                 'dictionary entries are sorted and distinct (mapping.sort_unstable() after a HashSet, A-std-sort)'],
-    not_covered=['dictionary construction (fast_build_string_column)', 'LIKE / regex'])
+    not_covered=['push_floats / push_strings / finalize', 'shapes other than the seven listed'])
 
 PROPS = {
     'C12': dict(level='other', units=['U13k', 'U21k'],
